@@ -102,13 +102,14 @@ def main():
         cnt["eq_calls"] += 1
         kd = _h(repr(key).encode())[:10]
         keys["vk"].add(kd)
-        if key in eq_born:
-            if eq_born[key] != obs["step"]:
+        hits = real_eq.cache_info().hits
+        u = real_eq(key)
+        if real_eq.cache_info().hits > hits:        # served from the memo
+            if eq_born.get(key) != obs["step"]:
                 cnt["eq_stale"] += 1
                 keys["vks"].add(kd)
         else:
             eq_born[key] = obs["step"]
-        u = real_eq(key)
         uuid_key[u] = kd
         return u
 
